@@ -2,7 +2,7 @@ import os
 from contextlib import contextmanager
 from typing import Type, Tuple, Dict, Set
 
-from yaml import SafeLoader, BaseLoader
+from yaml import SafeLoader, BaseLoader, nodes
 from entrypoints import get_group_all as get_entrypoints
 from toposort import toposort_flatten
 
@@ -18,6 +18,23 @@ from ...interfaces._partial import Partial
 
 class COBalDLoader(SafeLoader):
     """Loader with access to COBalD configuration constructors"""
+
+    def flatten_mapping(self, node):
+        # The nodes of a ``<<`` value are merged into their parent as they are: it is the
+        # one place where PyYAML never looks at a tag. Construct tagged ones like any other
+        # node, so that a tag that is not a registered plugin is rejected here as well.
+        for key_node, value_node in node.value:
+            if key_node.tag == "tag:yaml.org,2002:merge":
+                merged = [value_node]
+                if isinstance(value_node, nodes.SequenceNode):
+                    merged.extend(value_node.value)
+                for item in merged:
+                    if item.tag not in (
+                        self.DEFAULT_MAPPING_TAG,
+                        self.DEFAULT_SEQUENCE_TAG,
+                    ):
+                        self.construct_object(item, deep=True)
+        super().flatten_mapping(node)
 
 
 def add_constructor_plugins(entry_point_group: str, loader: Type[BaseLoader]) -> None:
